@@ -303,10 +303,23 @@ def check_support_filters(ctx):
     D, DT = pa[0], pa[1]
     da = roles.Defs(fa)
     calls = [c for c in calls_in(fa) if unparse(c.func) == CLS]
-    ok = len(calls) == 1 and [roles.canon(a, da) for a in calls[0].args] == ["%s.grid" % D, "%s.quadrature.singular" % pa[2], "%s.support" % DT, "%s.support" % D]
+    got_args = [roles.canon(a, da) for a in calls[0].args] if len(calls) == 1 else None
+    if not calls:
+        # the constructor may sit behind a module-level helper that forwards its own parameters (a wrapper, a memo):
+        # the roles are then those of the helper's call; whether a memo returns the right object is C18's rule
+        for c in calls_in(fa):
+            if isinstance(c.func, ast.Name) and m.has_fn(c.func.id):
+                g = m.fn(c.func.id)
+                gp = arg_names(g)
+                inner = [x for x in calls_in(g) if unparse(x.func) == CLS]
+                if len(inner) == 1 and all(isinstance(a, ast.Name) and a.id in gp for a in inner[0].args) and len(c.args) == len(gp) and not c.keywords:
+                    bind = dict(zip(gp, c.args))
+                    got_args = [roles.canon(bind[a.id], da) for a in inner[0].args]
+                    calls = [c]
+    ok = got_args == ["%s.grid" % D, "%s.quadrature.singular" % pa[2], "%s.support" % DT, "%s.support" % D]
     r.check(ok, "rule constructor arguments", SA, "assemble_singular_part", calls[0].lineno if calls else fa.lineno,
-            "rule constructor args %s" % ([roles.canon(a, da) for a in calls[0].args] if calls else "missing"),
-            "singular rule is built with %s, expected (domain.grid, parameters.quadrature.singular, dual_to_range.support, domain.support)" % ([roles.canon(a, da) for a in calls[0].args] if calls else "nothing"))
+            "rule constructor args %s" % (got_args if got_args else "missing"),
+            "singular rule is built with %s, expected (domain.grid, parameters.quadrature.singular, dual_to_range.support, domain.support)" % (got_args if got_args else "nothing"))
 
 
 def check_result_layout(ctx):
